@@ -102,6 +102,55 @@ def cases():
     return out
 
 
+def param_cache_replay(ctx):
+    """spec/ParamCache.tla: every sequence of AssignNew / MutateAndReassign / Read (5 operations) is replayed on a real
+    material of each law class with a scalar and with a per-element field parameter; after every Read the stiffness must be
+    the one of a freshly built material with the current parameter values."""
+    from EasyFEA import Models
+
+    res = ctx.tlc_must_hold("ParamCache", "ParamCache_none.cfg", what="ReadIsCurrent / FlagSound", workers=4)
+    ctx.tlc_must_fail("ParamCache", "ParamCache_skip_equal.cfg", expect="FlagSound")
+    seqs = [o["ops"] for o in res.prints.get("OPS", [])]
+    E = Models.Elastic
+    Ne = 4
+    makers = {
+        "Isotropic": lambda v: E.Isotropic(2, E=v, v=0.25, planeStress=True),
+        "TransverselyIsotropic": lambda v: E.TransverselyIsotropic(3, El=v, Et=4.0, Gl=2.0, vl=0.25, vt=0.2),
+        "Orthotropic": lambda v: E.Orthotropic(3, E1=v, E2=6.0, E3=4.0, G23=1.5, G13=2.0, G12=2.5, v23=0.2, v13=0.25, v12=0.3),
+    }
+    names = {"Isotropic": "E", "TransverselyIsotropic": "El", "Orthotropic": "E1"}
+    for cls, mk in makers.items():
+        for field in (False, True):
+            for si, ops in enumerate(seqs):
+                if (si + (1 if field else 0)) % (1 if ctx.thorough else 3) != 0:
+                    continue
+                base = np.linspace(8.0, 11.0, Ne) if field else 9.0
+                cur = base.copy() if field else base
+                mat = mk(cur)
+                k = 0
+                for op in ops:
+                    k += 1
+                    if op == "AssignNew":
+                        cur = (cur * 1.1 + 0.3) if field else cur * 1.1 + 0.3   # a new object
+                        setattr(mat, names[cls], cur)
+                    elif op == "MutateAndReassign":
+                        if field:
+                            cur[: Ne // 2] *= 0.5                                  # the same array, modified in place ...
+                            setattr(mat, names[cls], cur)                          # ... and assigned again
+                        else:
+                            cur = cur * 0.5
+                            setattr(mat, names[cls], cur)
+                    else:
+                        C = np.asarray(mat.C, dtype=float)
+                        Cf = np.asarray(mk(cur.copy() if field else cur).C, dtype=float)
+                        if C.shape != Cf.shape or np.abs(C - Cf).max() > 1e-12 * np.abs(Cf).max():
+                            ctx.violation(f"param-change/{cls}/{'field' if field else 'scalar'}", f"{cls} ({'per-element field' if field else 'scalar'} parameter {names[cls]}): after {' -> '.join(ops[:k])} the stiffness read is not the one of the current parameters (max relative {np.abs(C - Cf).max() / np.abs(Cf).max() if C.shape == Cf.shape else 'shape'})", {"cls": cls, "field": field, "ops": ops[:k]})
+                            break
+                ctx.count(1, distinct_key=("param-cache", cls, field, tuple(ops)))
+                ctx.traces(1)
+    ctx.section("param_cache", sequences=len(seqs), classes=list(makers), forms=["scalar", "per-element field"])
+
+
 def run(ctx):
     from EasyFEA import Models
     from EasyFEA.Models import Get_Pmat, Apply_Pmat
@@ -219,5 +268,6 @@ def run(ctx):
     ctx.section("cases", total=len(recs), frames=list(FRAMES), classes=list(PARAMS) + ["Anisotropic"])
     ctx.sample({"id": recs[5]["id"], "Sobs_row1": recs[5]["Sobs"][0]})
     ctx.cov["exhaustive"] = True
+    param_cache_replay(ctx)
     ctx.cov["rule"] = "every (law class, parameter set, rational frame incl. out-of-plane and compound rotations, axis lengths, 3D / plane stress / plane strain) case judged exactly by TLC on the reported compliance; distinct = cases"
     ctx.assume("compliance entries are snapped to rationals with denominator <= 1e6 within 1e-11 relative; plane strain is judged numerically (1e-10) against the inverse of the exact compliance")
